@@ -337,3 +337,350 @@ Proof.
       * by destruct (Hng k st m Hact Hk Hb).
 Qed.
 End drop_step.
+
+Section drop_step2.
+Variable D : tenv.
+Variable F : list fundef.
+Variable teq : sty -> sty -> Prop.
+Hypothesis Hteq : teq_laws D teq.
+Hypothesis HF : funs_typed D F teq.
+
+(* `drop x; k` *)
+Lemma drop_case Δ c self n a x k next c' :
+  cfg_typed D F teq Δ c -> ns_ok c ->
+  procs c !! self = Some (Proc [n] (FDrop x k) next) -> chan n = Some a ->
+  step Async D F c (Run self) = SStep c' ->
+  exists ls, sax_stepS01 F (α c) ls (α c') /\ labels c' = labels c ++ ls.
+Proof.
+  intros Hc Hns Hp Hn Hstep.
+  apply step_run_async_inv in Hstep as (p0 & Hp0 & Hstep). rewrite Hp in Hp0. simplify_eq.
+  destruct (ct_procs _ _ _ _ _ Hc self _ Hp) as (s & rs & _ & _ & Hty). cbn in Hty.
+  inversion Hty as [| | | | | | | | | | | |? ? ? ? ? ? T Hcl Hk| | | | | | |]; subst.
+  destruct (chan_ty_init teq Δ x T Hcl) as [b Hb]. destruct Hcl as (Hxs & _).
+  cbn in Hstep. rewrite Hxs in Hstep. cbn in Hstep.
+  destruct Hstep as (e & He & ->). cbn in He. simplify_eq.
+  exists []. split; [right|by rewrite labels_effect].
+  by eapply refine_drop.
+Qed.
+
+(* the droppable forward: posts the GC request (negative channel) or drops the message it receives *)
+Lemma dfwd_case Δ c self n a to from next c' :
+  cfg_typed D F teq Δ c -> Topo c -> ns_ok c ->
+  procs c !! self = Some (Proc [n] (FFwd to from true) next) -> chan n = Some a ->
+  step Async D F c (Run self) = SStep c' ->
+  exists ls, sax_stepS01 F (α c) ls (α c') /\ labels c' = labels c ++ ls.
+Proof.
+  intros Hc Ht Hns Hp Hn Hstep. set (p := Proc [n] (FFwd to from true) next) in *.
+  pose proof Hstep as Hstep0.
+  apply step_run_async_inv in Hstep as (p0 & Hp0 & Hstep). assert (p0 = p) by congruence. subst p0.
+  destruct (action_of Async D p) as [| |k m|k| |k pv|w] eqn:Hact; try done.
+  - unfold p in Hact. cbn in Hact. repeat case_match; done.
+  - unfold p in Hact. cbn in Hact. repeat case_match; done.
+  - (* the request is posted: the same object *)
+    assert (is_self to = true /\ chan from = Some k /\ m = Msg RGC zero_name zero_name [] "") as (Hto & Hfrom & ->).
+    { unfold p in Hact. cbn in Hact. destruct (is_self to); [|done]. cbn in Hact.
+      destruct (fwd_polarity D from) as [[| |]|?|?]; try done; destruct (chan from); by simplify_eq. }
+    destruct Hstep as (st & Hk & Hb & ->). exists []. split; [|unfold labels; cbn; by rewrite app_nil_r].
+    left. split; [done|]. symmetry. eapply refine_send; [exact Hp|exact Hk|exact Hb|].
+    unfold proc_obj, msg_obj. cbn. by rewrite Hn, Hto, Hfrom.
+  - (* a message arrives on the dropped channel: it is dropped, and so are the channels it carries *)
+    assert (is_self to = true /\ chan from = Some k) as (Hto & Hfrom).
+    { unfold p in Hact. cbn in Hact. destruct (is_self to); [|done]. cbn in Hact.
+      destruct (fwd_polarity D from) as [[| |]|?|?]; try done; destruct (chan from); by simplify_eq. }
+    destruct Hstep as (st & Hk & Hst).
+    destruct (ch_buf st) as [m|] eqn:Hb.
+    2:{ exfalso. pose proof (topo_closed_unused Async D c eq_refl Ht self p k st Hp (or_introl Hact) Hk). congruence. }
+    destruct Hst as (e & He & ->).
+    (* the channel is a client channel of positive type: the message is positive *)
+    destruct (recv_polarity D F teq Hteq HF Δ c self p k Hc Ht Hp Hact) as (T & HT & [[Hown _]|[_ Hpos]]).
+    { exfalso. eapply (own_not_client c self p k Ht Hp Hown). unfold p. cbn. apply elem_of_app. right. by apply name_chans_elem. }
+    pose proof (ct_msgs _ _ _ _ _ Hc k st m Hk Hb) as Hmt.
+    pose proof (pos_chan_pos_msg D teq Δ k m T Hmt HT Hpos) as Hposm.
+    set (cl := (if initialized (m_c1 m) then [m_c1 m] else []) ++ (if initialized (m_c2 m) then [m_c2 m] else [])).
+    assert (e = let '(ss, cs, _) := droppable_fwds self p cl in Eff Finish ss cs [] []) as ->.
+    { unfold on_message in He. cbn in He.
+      rewrite !andb_false_r in He. fold cl in He. destruct (droppable_fwds self p cl) as [[ss cs] p']. by simplify_eq. }
+    destruct (droppable_fwds self p cl) as [[ss cs] p'] eqn:Hdf.
+    destruct (droppable_fwds_spec self _ _ _ _ _ Hdf) as (Hlen & Hcs & Hobjs).
+    { unfold cl. apply Forall_app. split; apply Forall_init. }
+    assert (names_cids cl = name_cids (m_c1 m) ++ name_cids (m_c2 m)) as Hcl.
+    { unfold cl. by rewrite names_cids_app, !names_cids_init. }
+    exists []. split; [right|by rewrite labels_effect, labels_put].
+    destruct Hmt as (T' & HT' & Hm).
+    assert (exists V, msg_obj k m = [SMsgP k V] /\ names_cids (pval_names V) = names_cids cl) as (V & HmV & HV).
+    { rewrite Hcl. unfold msg_obj. destruct (m_rule m) eqn:Hrule; try done.
+      - eexists. split; [done|]. unfold names_cids. cbn. by rewrite app_nil_r.
+      - destruct Hm as (md & _ & H1 & H2). eexists. split; [done|]. unfold name_cids. by rewrite H1, H2.
+      - destruct Hm as (fm & tm & A & _ & _ & H2). eexists. split; [done|]. unfold names_cids, name_cids. cbn. by rewrite H2, !app_nil_r.
+      - destruct Hm as (bs & md & A & _ & _ & _ & H2). eexists. split; [done|]. unfold names_cids, name_cids. cbn. by rewrite H2, !app_nil_r. }
+    eapply (refine_finish F c self p k st m ss cs [SDrop k; SMsgP k V]); try done.
+    + assert (length cl = length cs) as Hlc by (rewrite Hcs; by rewrite map_length, seq_length).
+      rewrite Hcs at 1. f_equal. f_equal. exact Hlc.
+    + unfold proc_obj. cbn. by rewrite Hn, Hto, Hfrom, HmV.
+    + rewrite Hobjs, <- HV. by apply (s_gc _ k (SMsgP k V)).
+Qed.
+End drop_step2.
+
+(* ------------------------------------------------------------------ the fragment is closed under steps *)
+Lemma nosplit_subst_mut :
+  (forall f old new, nosplit (subst old new f) = nosplit f) /\
+  (forall bs old new, nosplit_brs (subst_brs old new bs) = nosplit_brs bs).
+Proof.
+  apply form_branches_ind; intros; cbn; try done.
+  - destruct (_ && _); auto.
+  - rewrite H. destruct (negb _); [by rewrite H0|done].
+  - destruct (negb _); auto.
+  - rewrite H0. destruct (negb _); [by rewrite H|done].
+Qed.
+Lemma nosplit_subst f old new : nosplit (subst old new f) = nosplit f.
+Proof. apply nosplit_subst_mut. Qed.
+Lemma nosplit_subst_params ps : forall args b, nosplit (subst_params ps args b) = nosplit b.
+Proof. induction ps as [|p ps IH]; intros [|a args] b; cbn; try done. by rewrite IH, nosplit_subst. Qed.
+Definition nosplit_funs (F : list fundef) : Prop := forall fd, In fd F -> nosplit (fn_body fd) = true.
+Lemma nosplit_unfold_call F fn args b : nosplit_funs F -> unfold_call F fn args = Some b -> nosplit b = true.
+Proof.
+  intros HF. unfold unfold_call. destruct (get_function F fn (length args)) as [fd|] eqn:Hg; [|done].
+  apply get_function_In in Hg. specialize (HF fd Hg).
+  destruct (_ =? _)%nat; [intros [= <-]; by rewrite nosplit_subst_params|].
+  destruct (_ =? _)%nat; [|done]. destruct args as [|a0 rest]; [done|]. intros [= <-].
+  rewrite nosplit_subst_params. destruct (fn_explicit fd); [by rewrite nosplit_subst|done].
+Qed.
+Lemma nosplit_find_branch l bs y Q : nosplit_brs bs = true -> find_branch l bs = Some (y, Q) -> nosplit Q = true.
+Proof.
+  induction bs as [|l' y' k r IH]; cbn; [done|]. intros [Hk Hr]%andb_prop.
+  destruct (String.eqb l' l); [intros [= <- <-]; done|auto].
+Qed.
+
+Definition eff_ok1 (e : effect) : Prop :=
+  (forall p', e_after e = Continue p' -> nosplit (pr_body0 p') = true /\ exists n, pr_provs p' = [n]) /\
+  (forall s, In s (e_spawn e) -> nosplit (sp_body s) = true /\ exists n, sp_provs s = [n]).
+
+Lemma droppable_fwds_ok1 self : forall cl p ss cs p', droppable_fwds self p cl = (ss, cs, p') ->
+  forall s, In s ss -> nosplit (sp_body s) = true /\ exists n, sp_provs s = [n].
+Proof.
+  induction cl as [|n cl IH]; intros p ss cs p' H s Hs; cbn in H.
+  - simplify_eq. done.
+  - unfold droppable_fwd, fresh_chan in H. cbn in H.
+    destruct (droppable_fwds self _ cl) as [[ss1 cs1] p2] eqn:Hrec. simplify_eq.
+    destruct Hs as [<-|Hs]; [cbn; eauto|]. eapply IH; eauto.
+Qed.
+
+Lemma on_message_ok1 self p m e n :
+  pr_provs p = [n] -> nosplit (pr_body0 p) = true -> (m_rule m = RFWD -> exists n', m_provs m = [n']) ->
+  on_message self p m = EOk e -> eff_ok1 e.
+Proof.
+  intros Hpv Hns Hfw He. destruct p as [provs body next]. cbn in *. subst provs.
+  assert (forall y Q l bs, find_branch l bs = Some (y, Q) -> nosplit_brs bs = true -> nosplit Q = true) as Hbr
+    by (intros; by eapply nosplit_find_branch).
+  unfold on_message in He. cbn in He.
+  destruct (m_rule m) eqn:Hrule; cbn in He.
+  8:{ destruct (Hfw eq_refl) as [n' Hpv'].
+      destruct body; cbn in He, Hns; simplify_eq; try (split; [intros p' [= <-]; cbn; rewrite ?Hpv'; eauto|intros s []]).
+      destruct droppable; cbn in He.
+      - destruct (droppable_fwds _ _ _) as [[ss cs] p'] eqn:Hdf. simplify_eq. split; [done|]. cbn. by eapply droppable_fwds_ok1.
+      - rewrite Hpv' in He. simplify_eq. split; [intros p' [= <-]; cbn; eauto|intros s []]. }
+  all: destruct body; cbn in He, Hns; try discriminate.
+  all: repeat match type of He with
+       | context [if ?b then _ else _] => destruct b eqn:?; try discriminate
+       | context [match find_branch ?l ?bs with _ => _ end] => destruct (find_branch l bs) as [[? ?]|] eqn:?; try discriminate
+       | context [droppable_fwds ?a ?b ?c] => destruct (droppable_fwds a b c) as [[? ?] ?] eqn:?
+       end.
+  all: try (apply andb_prop in Hns as [? ?]).
+  all: simplify_eq.
+  all: split; [intros p' Hp'; cbn in Hp'; first [discriminate | (simplify_eq; cbn; rewrite ?nosplit_subst; split; [first [done | by eapply Hbr]|eauto])]
+              |intros s Hs; cbn in Hs; first [done | by eapply droppable_fwds_ok1]].
+Qed.
+
+Lemma internal_ok1 F self p e n :
+  pr_provs p = [n] -> nosplit (pr_body0 p) = true -> nosplit_funs F ->
+  internal_effect Async F self p = EOk e -> eff_ok1 e.
+Proof.
+  intros Hpv Hns HFn He. destruct p as [provs body next]. cbn in *. subst provs.
+  destruct body; cbn in He, Hns; try discriminate.
+  - apply andb_prop in Hns as [? ?]. simplify_eq. split.
+    + intros p' [= <-]. cbn. rewrite nosplit_subst. eauto.
+    + intros s [<-|[]]. cbn. eauto.
+  - destruct (call_body F f args) as [b|] eqn:Hcall; [|done]. simplify_eq. rewrite call_body_unfold in Hcall.
+    split; [|intros s []]. intros p' [= <-]. cbn. split; [by eapply nosplit_unfold_call|eauto].
+  - simplify_eq. split.
+    + intros p' [= <-]. cbn. eauto.
+    + intros s [<-|[]]. cbn. eauto.
+  - simplify_eq. split; [|intros s []]. intros p' [= <-]. cbn. eauto.
+Qed.
+
+Lemma add_spawns_content self ss : forall next pm q pr,
+  (add_spawns self next ss pm).1 !! q = Some pr ->
+  pm !! q = Some pr \/ exists s, In s ss /\ pr = Proc (sp_provs s) (sp_body s) 0.
+Proof.
+  induction ss as [|s ss IH]; intros next pm q pr H; cbn in H; [auto|].
+  apply IH in H as [H|(s' & Hs' & ->)]; [|right; exists s'; split; [by right|done]].
+  apply lookup_insert_Some in H as [[_ <-]|[_ H]]; [right; exists s; split; [by left|done]|by left].
+Qed.
+
+Lemma apply_effect_content c self p e q pr :
+  procs (apply_effect c self p e) !! q = Some pr ->
+  (exists p', e_after e = Continue p' /\ pr_provs pr = pr_provs p' /\ pr_body0 pr = pr_body0 p') \/
+  (exists s, In s (e_spawn e) /\ pr_provs pr = sp_provs s /\ pr_body0 pr = sp_body s) \/
+  procs c !! q = Some pr.
+Proof.
+  unfold apply_effect.
+  destruct (add_spawns self _ (e_spawn e) (procs c)) as [pm next1] eqn:Hadd. cbn [procs].
+  assert (pm = (add_spawns self (match e_after e with Continue p' => pr_next p' | Finish => pr_next p end + length (e_newch e)) (e_spawn e) (procs c)).1) as Hpm by (by rewrite Hadd).
+  intros H.
+  assert (pm !! q = Some pr \/ exists p', e_after e = Continue p' /\ pr_provs pr = pr_provs p' /\ pr_body0 pr = pr_body0 p') as [H1|H1].
+  { destruct (e_after e) as [p'|].
+    - apply lookup_insert_Some in H as [[_ <-]|[_ H]]; [right; eauto|by left].
+    - apply lookup_delete_Some in H as [_ H]. by left. }
+  - rewrite Hpm in H1. apply add_spawns_content in H1 as [H1|(s & Hs & ->)]; [auto|]. right. left. eauto.
+  - by left.
+Qed.
+
+Lemma send_fwd_provs D p k m : action_of Async D p = ASend k m -> m_rule m = RFWD -> m_provs m = pr_provs p.
+Proof.
+  destruct p as [provs body next]. unfold action_of, send_on, recv_on, internal. cbn.
+  destruct body; cbn; repeat case_match; intros ?; simplify_eq; cbn; done.
+Qed.
+
+Theorem dropcfg_step D F c self c' :
+  nosplit_funs F -> Topo c -> DropCfg c -> step Async D F c (Run self) = SStep c' -> DropCfg c'.
+Proof.
+  intros HFn Ht Hdc Hstep. apply step_run_async_inv in Hstep as (p & Hp & Hstep).
+  destruct (dc_procs c Hdc self p Hp) as [Hns [n Hpv]].
+  assert (forall c1 e, procs c1 = procs c -> eff_ok1 e ->
+            forall q pp, procs (apply_effect c1 self p e) !! q = Some pp -> nosplit (pr_body0 pp) = true /\ exists n0, pr_provs pp = [n0]) as Hprocs.
+  { intros c1 e Hc1 [Hk Hs] q pp Hq. apply apply_effect_content in Hq as [(p' & Ha & -> & ->)|[(s & Hin & -> & ->)|Hq]]; [by apply Hk|by apply Hs|].
+    rewrite Hc1 in Hq. by apply (dc_procs c Hdc q pp). }
+  assert (forall c1 e, (forall k st m, chans c1 !! k = Some st -> ch_buf st = Some m -> m_rule m = RFWD -> exists n0, m_provs m = [n0]) ->
+            forall k st m, chans (apply_effect c1 self p e) !! k = Some st -> ch_buf st = Some m -> m_rule m = RFWD -> exists n0, m_provs m = [n0]) as Hmsgs.
+  { intros c1 e Hc1 k st m Hk Hb Hr.
+    assert (buf (apply_effect c1 self p e) k = Some m) as Hbuf by (unfold buf, bufm; by rewrite Hk).
+    apply apply_effect_buf in Hbuf. unfold buf, bufm in Hbuf. destruct (chans c1 !! k) as [st1|] eqn:Hk1; [|done]. eauto. }
+  destruct (action_of Async D p) as [| |k m|k| |k pv|w] eqn:Hact; try done.
+  - by destruct (action_not_dup Async D p n Hpv).
+  - destruct Hstep as (e & He & ->). pose proof (internal_ok1 F self p e n Hpv Hns HFn He) as Hok. split.
+    + by apply Hprocs.
+    + apply Hmsgs. apply (dc_msgs c Hdc).
+  - destruct Hstep as (st & Hk & Hb & ->). split; cbn.
+    + intros q pp [_ Hq]%lookup_delete_Some. by apply (dc_procs c Hdc q pp).
+    + intros k' st' m' [[<- <-]|[_ Hk']]%lookup_insert_Some Hb' Hr; [|by eapply (dc_msgs c Hdc)].
+      cbn in Hb'. simplify_eq. rewrite (send_fwd_provs D p k m' Hact Hr). eauto.
+  - destruct Hstep as (st & Hk & Hst). destruct (ch_buf st) as [m|] eqn:Hb.
+    + destruct Hst as (e & He & ->).
+      pose proof (on_message_ok1 self p m e n Hpv Hns (dc_msgs c Hdc k st m Hk Hb) He) as Hok. split.
+      * by apply Hprocs.
+      * apply Hmsgs. intros k' st' m' Hk'. cbn in Hk'. apply lookup_insert_Some in Hk' as [[<- <-]|[_ Hk']]; [done|by apply (dc_msgs c Hdc k' st' m')].
+    + (* no receive on a closed channel *)
+      pose proof (topo_closed_unused Async D c eq_refl Ht self p k st Hp (or_introl Hact) Hk). congruence.
+Qed.
+
+(* ------------------------------------------------------------------ one step, then runs *)
+Section drop_runs.
+Variable D : tenv.
+Variable F : list fundef.
+Variable teq : sty -> sty -> Prop.
+Hypothesis Hteq : teq_laws D teq.
+Hypothesis HF : funs_typed D F teq.
+Hypothesis HFa : TopoStep.funs_aff F.
+Hypothesis HFn : nofd_funs F.
+Hypothesis HFs : nosplit_funs F.
+
+Theorem refines_drop_step c self c' :
+  InvX D F teq c -> DropCfg c -> step Async D F c (Run self) = SStep c' ->
+  exists ls, sax_stepS01 F (α c) ls (α c') /\ labels c' = labels c ++ ls.
+Proof.
+  intros [[Δ Hc] Ht Hl Hns Hpv Hd Hnf] Hdc Hstep.
+  destruct (procs c !! self) as [p|] eqn:Hp; [|by apply step_run_async_inv in Hstep as (p & Hp' & _); congruence].
+  destruct (dc_procs c Hdc self p Hp) as [Hnsp [n Hpvn]].
+  destruct (ct_procs _ _ _ _ _ Hc self p Hp) as (s & rs & _ & Hprov & _). rewrite Hpvn in Hprov.
+  apply Forall_cons_iff in Hprov as [(a & t' & Hn & _) _].
+  destruct p as [provs body next]. cbn in Hpvn, Hnsp. subst provs.
+  destruct body; try (eapply (lin_case D F teq Hteq HF Δ c self n a); eauto; done).
+  - (* forward *) destruct droppable.
+    + eapply (dfwd_case D F teq Hteq HF Δ c self n a); eauto.
+    + eapply (lin_case D F teq Hteq HF Δ c self n a); eauto. done.
+  - (* drop *) eapply (drop_case D F teq Δ c self n a); eauto.
+Qed.
+
+Theorem refines_drop_run c tr c' :
+  InvX D F teq c -> DropCfg c -> steps Async D F c tr c' ->
+  exists ls, sax_steps F true (α c) ls (α c') /\ labels c' = labels c ++ ls.
+Proof.
+  intros HI Hdc Hs. induction Hs as [c|c ch c1 tr c2 Hstep _ IH].
+  - exists []. split; [by apply sax_refl|by rewrite app_nil_r].
+  - destruct (async_step_run D F c ch c1 Hstep) as [self ->].
+    destruct (refines_drop_step c self c1 HI Hdc Hstep) as (l1 & Hs1 & Hl1).
+    pose proof (invx_step_async D F teq Hteq HF HFa HFn c (Run self) c1 HI Hstep) as HI1.
+    pose proof (dropcfg_step D F c self c1 HFs (ix_topo _ _ _ _ HI) Hdc Hstep) as Hdc1.
+    destruct (IH HI1 Hdc1) as (l2 & Hs2 & Hl2).
+    exists (l1 ++ l2). split; [eapply sax_steps_app; [by apply sax_stepS01_steps|done]|]. by rewrite Hl2, Hl1, app_assoc.
+Qed.
+End drop_runs.
+
+(* ------------------------------------------------------------------ accepted programs with weakening *)
+Require Import Grits.spec.SynOk Grits.proofs.RtInit Grits.proofs.RtTheorems Grits.proofs.RtStaticCheck Grits.proofs.RtTcSyn
+               Grits.proofs.RtTcBisim Grits.proofs.ParseSynOk Grits.proofs.ParseRaw Grits.proofs.AsyncSync
+               Grits.proofs.DeterminismAll Grits.proofs.SrcAll.
+
+(* the fragment, decided on the annotated program: no split, one provider name per process
+   (drop is allowed; so is everything of the linear fragment) *)
+Definition nosplit_program (p : program) : bool :=
+  forallb (fun pr => match pr_providers pr with [_] => nosplit (pr_body pr) | _ => false end) (p_procs p) &&
+  forallb (fun fd => nosplit (fn_body fd)) (p_funs p).
+
+Lemma close_body_nosplit p b : nosplit (close_body p b) = nosplit b.
+Proof.
+  unfold close_body. apply (fold_left_inv (fun b' => nosplit b' = nosplit b)); [done|].
+  intros b' [old new] Hb'. by rewrite nosplit_subst.
+Qed.
+
+Lemma nosplit_program_init p : nosplit_program p = true -> nosplit_funs (p_funs p) /\ DropCfg (init_config p).
+Proof.
+  unfold nosplit_program. intros [Hlp Hlf]%andb_prop. rewrite forallb_forall in Hlp, Hlf. split.
+  - intros fd Hfd. by apply Hlf.
+  - split.
+    + intros q pr' Hq. apply init_procs_lookup in Hq as (i & pr & Hpr & -> & Hpv & Hbody & _).
+      assert (In pr (p_procs p)) as Hin by (by eapply elem_of_list_In, elem_of_list_lookup_2).
+      specialize (Hlp pr Hin). cbn in Hlp. destruct (pr_providers pr) as [|x [|y r]] eqn:Hprov; try done.
+      split; [by rewrite Hbody, close_body_nosplit|]. rewrite Hpv. cbn. eauto.
+    + intros k st m Hk Hb. pose proof (bufs_empty_init p k st Hk). congruence.
+Qed.
+
+(* C04 for programs with weakening: parsed, accepted, closed, no split and one provider name per
+   process — every Async run prints a label sequence that Sax.v (structural rules included) prints
+   from the program's own SAX initial configuration.  No premise about configurations or runs. *)
+Theorem prints_admitted_drop txt p p' :
+  parse_string txt = POk p -> typecheck p = Accept p' -> in_fragment p' -> nosplit_program p' = true ->
+  forall fuel pick, exists C',
+    sax_steps (p_funs p') true (sax_init p')
+      (labels (res_config (exec_run fuel pick Async (p_types p') (p_funs p') (init_config p')))) C'.
+Proof.
+  intros Hp Ha Hf Hns fuel pick.
+  pose proof (parse_syn_ok _ _ Hp) as PS. pose proof (parse_raw_ok _ _ Hp) as RS.
+  destruct (init_invx p p' Ha Hf PS RS (all_src_parsed txt p p' Hp Ha)) as (HFa & HFn & HI).
+  pose proof (tc_annotations_typed_rt p p' Ha PS RS Hf) as Hst.
+  destruct (nosplit_program_init p' Hns) as [HFs Hdc].
+  rewrite <- (exec_trace_exec_run Async (p_types p') (p_funs p') fuel pick (init_config p') []).
+  destruct (exec_trace fuel pick Async (p_types p') (p_funs p') (init_config p') []) as [r tr] eqn:Htr. cbn [fst].
+  apply exec_trace_run in Htr as (es & _ & Hrun).
+  destruct (refines_drop_run _ _ _ (teq_rt_laws _) (proj1 Hst) HFa HFn HFs _ _ _ HI Hdc Hrun) as (ls & Hs & Hl).
+  exists (α (res_config r)). rewrite Hl. change (labels (init_config p')) with (@nil string). cbn.
+  eapply sax_steps_perm; [symmetry; apply alpha_init|done].
+Qed.
+
+Definition c04_drop_text (txt : string) : bool :=
+  match parse_string txt with
+  | POk p => match typecheck p with Accept p' => in_fragment_b p' && nosplit_program p' | _ => false end
+  | _ => false
+  end.
+
+Theorem prints_admitted_drop_text txt : c04_drop_text txt = true ->
+  exists p p', parse_string txt = POk p /\ typecheck p = Accept p' /\
+  forall fuel pick, exists C',
+    sax_steps (p_funs p') true (sax_init p')
+      (labels (res_config (exec_run fuel pick Async (p_types p') (p_funs p') (init_config p')))) C'.
+Proof.
+  unfold c04_drop_text. destruct (parse_string txt) as [p| | |] eqn:Hp; try discriminate.
+  destruct (typecheck p) as [p'| | |] eqn:Ha; try discriminate.
+  intros [Hf Hc]%andb_prop. exists p, p'. split; [done|]. split; [done|].
+  apply (prints_admitted_drop txt p p' Hp Ha); [by apply in_fragment_b_sound|done].
+Qed.
